@@ -4,6 +4,8 @@ use crate::engine::{CaseResult, Ctx, Fail};
 use serde_json::Value;
 use std::path::Path;
 
+pub mod c01;
+pub mod c02;
 pub mod c05;
 pub mod c07;
 pub mod c16;
@@ -17,6 +19,8 @@ pub struct Prop {
 }
 
 pub const ALL: &[Prop] = &[
+    Prop { id: "C01", level: "exploration", run: c01::run, replay: c01::replay },
+    Prop { id: "C02", level: "exploration", run: c02::run, replay: c02::replay },
     Prop { id: "C05", level: "exploration", run: c05::run, replay: c05::replay },
     Prop { id: "C07", level: "exploration", run: c07::run, replay: c07::replay },
 ];
